@@ -118,7 +118,12 @@ func lxGenGrammar(rng *rand.Rand, idx int) *lxGrammar {
 		}
 		g.rules = append(g.rules, r)
 	}
-	add(lxRule{name: "space", pattern: `[ \t\n]+`, attr: "(space)", scs: g.scNames})
+	if rng.Intn(4) == 0 {
+		// no rule matches a newline: it is an invalid token, and the line count has to follow all the same
+		add(lxRule{name: "space", pattern: `[ \t]+`, attr: "(space)", scs: g.scNames})
+	} else {
+		add(lxRule{name: "space", pattern: `[ \t\n]+`, attr: "(space)", scs: g.scNames})
+	}
 	idPat := `[a-z][a-z0-9]*`
 	kws := []string{"if", "in", "int", "a", "ab0"}
 	if rng.Intn(2) == 0 {
